@@ -24,6 +24,7 @@ Commands (a text argument is the list of strings after `_text2list`):
   getword <n>      -> <str> | `err KeyError`
   getwid <str>     -> n
   count            -> `n ## n`         word_count() ## number of distinct words seen in source text
+  commit [evict] / abort -> like count   transaction boundaries (abort: back to the last committed lexicon)
   items            -> `[<str>:id …]`   in word order
   proc <elem> <str> … / procglob <elem> <str> …  -> `[strs]`   one pipeline element alone
 -/
@@ -69,6 +70,8 @@ structure St where
   cfg : LexCfg := {}
   s : State := {}
   seen : List Str := []
+  /-- the lexicon as of the last `commit` (a transaction abort returns to it) -/
+  saved : State × List Str := ({}, [])
 
 def showStrs (l : List Str) : String := "[" ++ " ".intercalate (l.map showStr) ++ "]"
 def showIds (l : List Nat) : String := "[" ++ showNats l ++ "]"
@@ -118,6 +121,13 @@ def step (st : St) (toks : List String) : St × String :=
     | none => (st, "bad-op")
     | some w => (st, toString (getWid st.s w))
   | ["count"] => (st, toString (wordCount st.s) ++ " ## " ++ toString st.seen.length)
+  -- transaction boundaries when the lexicon lives in a database: a commit is invisible, an abort
+  -- returns to the last committed lexicon; both answer like `count`
+  | "commit" :: _ =>
+    ({ st with saved := (st.s, st.seen) }, toString (wordCount st.s) ++ " ## " ++ toString st.seen.length)
+  | ["abort"] =>
+    ({ st with s := st.saved.1, seen := st.saved.2 },
+      toString (wordCount st.saved.1) ++ " ## " ++ toString st.saved.2.length)
   | ["items"] =>
     let ks := Sort.isort leStr (AMap.keys st.s.wids)
     (st, "[" ++ " ".intercalate (ks.map (fun k => showStr k ++ ":" ++ toString (getWid st.s k))) ++ "]")
